@@ -252,6 +252,11 @@ func (s *SIP) DecodeFromBytes(data []byte, df gopacket.DecodeFeedback) error {
 	var offset int
 	var eoh = false // track End Of Headers
 
+	// A zero-value SIP (not built with NewSIP) has no header map yet
+	if s.Headers == nil {
+		s.Headers = make(map[string][]string)
+	}
+
 	// Iterate on all lines of the SIP Headers
 	// and stop when we reach the SDP (aka when the new line
 	// is at index 0 of the remaining packet)
